@@ -235,7 +235,7 @@ package vm
 //@   ensures @page old(render.memOk(vmi.pg.cache)) && (vmi.sizer != nil ==> render.sizerOk(vmi.sizer)) && (vmi.pg.sizer != nil ==> render.sizerOk(vmi.pg.sizer)) ==> render.pageOk(vmi.pg)
 //@   ensures[C05,C07] @unmapped unmapped(vmi)
 //@   ensures @sizer (vmi.sizer != nil ==> vmi.pg.sizer == vmi.sizer) && (vmi.sizer == nil ==> vmi.pg.sizer == old(vmi.pg.sizer))
-//@   ensures[C02,C07] @cursors vmi.pg.sizer != nil ==> len(vmi.pg.sizer.crsrs) == 0
+//@   ensures[C02,C07] @cursors old(vmi.pg.sizer == nil || vmi.pg.sizer == vmi.sizer) && old(vmi.pg.sizer) != nil ==> len(vmi.pg.sizer.crsrs) == 0
 
 //@ modset navMods(st, ca) = st.ExecPath, st.ExecPath[*], st.SizeIdx, st.Moves, st.lastMove, cac(ca).Cache, cac(ca).Cache[*], cac(ca).CacheUseSize, cac(ca).Sizes[*]
 //@ modset resetMods(vm) = vm.mn, vm.pg.sink, vm.pg.extra, vm.pg.cacheMap, vm.pg.menu, vm.pg.sizer, vm.pg.menu.menu, vm.pg.menu.sink, vm.pg.menu.canNext, vm.pg.menu.canPrevious, vm.pg.sizer.crsrs, vm.sizer.crsrs
@@ -545,7 +545,7 @@ package vm
 // the context carries the session's language (C18)
 //@ pred langInCtx(ctx, st) = st.Language != nil ==> db.ctxHasLang(ctx) && db.ctxLangCode(ctx) == st.Language.Code
 //@ func (*Vm).Run
-//@   serves C03, C06, C08, C20, C05, C04, C18
+//@   serves C03, C06, C08, C20, C05, C04, C18, C07
 //@   requires[C18] @lang fl(vm, state.FLAG_LANG) || langInCtx(ctx, vm.st)
 //@   loop 1 invariant[C18] @lang fl(vm, state.FLAG_LANG) || langInCtx(ctx, vm.st)
 // every instruction handler gets the session's language: LOAD/RELOAD look up and call external functions,
@@ -583,6 +583,8 @@ package vm
 //@   callsite opSplit assert[C03] @resumed iterold(fl(vm, state.FLAG_WAIT)) ==> !fl(vm, state.FLAG_INMATCH)
 // ... and the renderer carries nothing over (C05, C07)
 //@   callsite opSplit assert[C05,C07] @fresh iterold(fl(vm, state.FLAG_WAIT)) ==> unmapped(vm) && len(vm.mn.menu) == 0 && !vm.mn.sink
+// ... including the error notice and the page cursors: what a freshly created VM would have (C07)
+//@   callsite opSplit assert[C07] @carried iterold(fl(vm, state.FLAG_WAIT)) ==> vm.pg.err == nil && (vm.pg.sizer != nil ==> len(vm.pg.sizer.crsrs) == 0)
 
 // Render: whatever is returned passed the final size check of the page (C01);
 // a browse error is turned into the catch node's page.
